@@ -52,6 +52,7 @@ struct SearchTap : public Avoid::DebugHandler {
     std::vector<std::pair<const Avoid::VertInf *, int>> idx;                  // sorted by pointer
     int pSrc = -1, pTar = -1, pPrev = -1, pLineSrc = -1, pLineDst = -1;
     long nSearches = 0, nDumped = 0;
+    bool enabled = true;
     unsigned lastSearchConn = 0;   // connector of the searches since the last `srouted` (0 = none)
 
     int at(const Avoid::VertInf *v) const {
@@ -134,6 +135,7 @@ struct SearchTap : public Avoid::DebugHandler {
         auto c = conns.find(t->id.objID);
         if (c == conns.end() || !router) return;
         lastSearchConn = t->id.objID;          // polyline connectors take pins too: their `srouted` is needed
+        if (!enabled) return;                  // thorough tier: graphs are copied in every 2nd case only (budget)
         if (!c->second.second) return;         // polyline search: not modelled
         Avoid::ConnRef *conn = c->second.first;
         vs.clear(); es.clear(); off.clear(); idx.clear();
